@@ -24,6 +24,7 @@ KA = "deploy-returned-before-deployed:event-of-redeploy-set-by-finishing-undeplo
 KB = "lazy-connector-not-undeployed:FutureConnector.undeploy-during-its-deploy"
 KD = "hang:event-of-failed-deployment-cleared-by-waiting-undeploy"
 KC = "undeploy_all-left-live:failed-wrapper-stays-in-dependants-of-wrapped"
+KH = "undeploy-returned-but-connector-live"
 KF = "undeploy-of-not-deployed:undeploy-woken-from-event-wait-acts-on-redeployed-incarnation"
 KG = "deploy-while-live:lazy-redeploy-overlaps-connector-awaiting-its-deferred-undeploy"
 KE = "undeploy-under-live-wrapper:finishing-undeploy-strips-dependants-edge-of-concurrent-redeploy"
@@ -72,6 +73,16 @@ CORPUS = [
      "scripts": {"D": {"deploy": [[3, False], [1, True]], "undeploy_steps": 1}}, "prefix": [],
      "batch": [["deploy", "D"], ["undeploy", "D", 1], ["deploy", "D", 8]], "lseed": 0, "final_undeploy_all": False},
     # open finding: a wrapper whose own deploy fails stays among the dependants of the wrapped deployment
+    # an undeploy / undeploy_all issued INSIDE the deploy window of an eager deployment must undeploy it once the deploy has finished
+    {"idx": -7, "topo": "D", "deployments": {"D": {"kind": "base", "wraps": None, "lazy": False}},
+     "scripts": {"D": {"deploy": [[5, True]], "undeploy_steps": 1}}, "prefix": [],
+     "batch": [["deploy", "D", 0], ["undeploy", "D", 2]], "lseed": 0, "shuffle": False, "final_undeploy_all": False},
+    {"idx": -8, "topo": "D", "deployments": {"D": {"kind": "base", "wraps": None, "lazy": False}},
+     "scripts": {"D": {"deploy": [[5, True]], "undeploy_steps": 2}}, "prefix": [],
+     "batch": [["deploy", "D", 0], ["undeploy_all", None, 2]], "lseed": 0, "shuffle": False, "final_undeploy_all": False},
+    {"idx": -9, "topo": "WD", "deployments": {n: {"kind": "wrap" if w else "base", "wraps": w, "lazy": False} for n, w in TOPOS["WD"].items()},
+     "scripts": {"D": {"deploy": [[4, True]], "undeploy_steps": 1}}, "prefix": [],
+     "batch": [["deploy", "D", 0], ["undeploy", "D", 1], ["undeploy", "D", 3]], "lseed": 0, "shuffle": False, "final_undeploy_all": False},
     {"idx": -6, "topo": "WXD", "deployments": {n: {"kind": "wrap" if w else "base", "wraps": w, "lazy": False} for n, w in TOPOS["WXD"].items()},
      "scripts": {"W": {"deploy": [[1, False]]}}, "prefix": [], "batch": [["deploy", "W"], ["deploy", "X"]], "lseed": 93353735},
 ]
@@ -206,6 +217,31 @@ def monitor(case: dict, r: dict) -> list[tuple[str, str]]:
                         key = KB if o in lazy_race else (KC if failed_wrapper else "undeploy_all-left-live")
                         fails.append((key, f"{d['name']} object {o} is live after undeploy_all returned"
                                       + (f" (failed wrappers still among its dependants: {failed_wrapper})" if failed_wrapper else "")))
+    # an undeploy(n) / undeploy_all that returns ok leaves no connector of an eager, never-wrapped-in-this-run deployment live, unless a deploy
+    # of it was requested after the undeploy request started (the dependants of such a deployment are {n} or {} — a set, not a counter)
+    wrapped_now = {o[2].split("<")[0] for o in ops if o[1] == "deps.add" and o[2].split("<")[0] != o[2].split("<")[1]}
+    for q in r["requests"]:
+        if q["req"][0] not in ("undeploy", "undeploy_all") or q.get("outcome") != "ok" or "end" not in q:
+            continue
+        names_q = [q["req"][1]] if q["req"][0] == "undeploy" else [nm for nm in deps]
+        for n in names_q:
+            if deps[n]["lazy"] or n in wrapped_now or deps[n]["wraps"]:
+                continue
+            if any(p["req"][0] == "deploy" and p["req"][1] == n and p["start"] > q["start"] for p in r["requests"]):
+                continue
+            if q["req"][0] == "undeploy_all" and not any(p["req"][0] == "deploy" and p["req"][1] == n and p["start"] < q["start"]
+                                                         for p in r["requests"]):
+                continue            # undeploy_all iterates over the deployments registered when it starts
+            if not any(p["req"][0] == "deploy" and p["req"][1] == n and p["start"] < q["start"] and p.get("outcome") == "ok" for p in r["requests"]):
+                continue
+            for o, d in obj.items():
+                if d["name"] == n and "deploy-exit" in d and d["deploy-exit"][0] < q["end"] and d["create"] < q["end"] \
+                        and not ("undeploy-enter" in d and d["undeploy-enter"][0] < q["end"]):
+                    # the connector was registered before the request started?
+                    if d["create"] < q["start"]:
+                        fails.append((KH, f"{q['req'][0]}({n if q['req'][0] == 'undeploy' else ''}) started at {q['start']} (the deployment was "
+                                          f"registered at {d['create']}) and returned ok at {q['end']}, but connector object {o} of {n} is live and "
+                                          f"its undeploy() was never entered: {d}"))
     for o, d in obj.items():
         if "deploy-fail" in d and not deps[d["name"]]["lazy"]:
             for q in r["requests"]:
